@@ -396,8 +396,12 @@ Lemma reply_of_outcome_meets : forall D t (o : houtcome D),
   own_code_ok (spec_handler HSync false o) ->
   meets (reply_of_outcome t o) (spec_handler HSync false o).
 Proof.
-  intros D t o H G. destruct o as [|x|text tb]; cbn [reply_of_outcome spec_handler andb is_sync negb meets].
+  intros D t o H G. destruct o as [| |x|text tb]; cbn [reply_of_outcome spec_handler andb is_sync negb meets].
   - exact I.
+  - destruct (class_has_some _ _ _ _ H) as [e E].
+    destruct (class_has_spec _ _ _ _ e H E) as (Hc & Hk & _).
+    unfold with_class. rewrite E. unfold construct. rewrite Hc. unfold base_init. rewrite Hk.
+    reflexivity.
   - unfold send_error, to_response_error.
     rewrite (G _ _ _ eq_refl). cbn [meets]. reflexivity.
   - destruct (internal_error_of_code D t text tb H) as (e & -> & _). cbn [meets r_code r_msg]. split; reflexivity.
